@@ -1352,6 +1352,11 @@ func checkC16(c *Ctx) int {
 	models = append(models, fmt.Sprintf("exhaustive Inv_C16_Coherent/Inv_C16_MergeRules: 2 ids x fields %v x 2 values, all sequences of <= %d requests (post, keyvalues batch, delete, commit, new version, restart, schema): %d distinct states, depth %d",
 		mc.Fields, mc.MaxSteps, mcRes.Distinct, mcRes.Depth))
 
+	// the import-kv command of the RPC path (c16_rpc.go, specs/NJImport.tla)
+	nImport, nImportCmp := njRPCImport(c, run)
+	run.Set("import_kv_cases_replayed", nImport)
+	run.Set("import_kv_comparisons", nImportCmp)
+
 	run.Set("states", states)
 	run.Set("transitions", trans)
 	run.Set("traces_validated_against_impl", int64(len(paths)+len(hists)))
